@@ -465,7 +465,9 @@ func c06Props() []c06Prop {
 		add("quoted-argument/"+name+"/mandatory", `leaf l { type string; mandatory `+qt+`true`+qt+`; }`, func(m *meta.Module) string { return b(leafOf(m, "l").(*meta.Leaf).Mandatory()) }, "true")
 		add("quoted-argument/"+name+"/max-elements", `leaf-list l { type string; max-elements `+qt+`5`+qt+`; }`, func(m *meta.Module) string { return fmt.Sprint(leafOf(m, "l").(*meta.LeafList).MaxElements()) }, "5")
 		add("quoted-argument/"+name+"/min-elements", `leaf-list l { type string; min-elements `+qt+`2`+qt+`; }`, func(m *meta.Module) string { return fmt.Sprint(leafOf(m, "l").(*meta.LeafList).MinElements()) }, "2")
-		add("quoted-argument/"+name+"/ordered-by", `leaf-list l { type string; ordered-by `+qt+`user`+qt+`; }`, func(m *meta.Module) string { return fmt.Sprint(leafOf(m, "l").(*meta.LeafList).OrderedBy() == meta.OrderedByUser) }, "true")
+		add("quoted-argument/"+name+"/ordered-by", `leaf-list l { type string; ordered-by `+qt+`user`+qt+`; }`, func(m *meta.Module) string {
+			return fmt.Sprint(leafOf(m, "l").(*meta.LeafList).OrderedBy() == meta.OrderedByUser)
+		}, "true")
 		add("quoted-argument/"+name+"/status", `leaf l { type string; status `+qt+`current`+qt+`; }`, func(m *meta.Module) string { return "loads" }, "loads")
 		add("quoted-argument/"+name+"/enum-value", `leaf l { type enumeration { enum a { value `+qt+`3`+qt+`; } } }`, func(m *meta.Module) string { return fmt.Sprint(leafOf(m, "l").(*meta.Leaf).Type().Enum()[0].Id) }, "3")
 		add("quoted-argument/"+name+"/bit-position", `leaf l { type bits { bit a { position `+qt+`3`+qt+`; } } }`, func(m *meta.Module) string { return fmt.Sprint(leafOf(m, "l").(*meta.Leaf).Type().Bits()[0].Position) }, "3")
